@@ -61,3 +61,67 @@ Proof.
   destruct (ifver_of_json (ifver_to_json b)) as [x|]; cbn in H; [|discriminate].
   apply N.eqb_eq in H. congruence.
 Qed.
+
+(* ---------------------------------------------------------------------------
+   The other inverse: encode, then decode, over every field value (finite). *)
+Lemma in_small (n : nat) (x : N) : x < N.of_nat n -> In x (map N.of_nat (seq 0 n)).
+Proof. intros H. apply in_map_iff. exists (N.to_nat x). split; [lia|]. apply in_seq. lia. Qed.
+Lemma in_bools (b : bool) : In b bools. Proof. destruct b; cbn; auto. Qed.
+
+Lemma all_esm_spec e : e_mode e < 4 -> e_type e < 16 -> In e all_esm.
+Proof.
+  intros Hm Ht. destruct e as [m t u r]. cbn in Hm, Ht. unfold all_esm.
+  apply in_flat_map. exists r. split; [apply in_bools|].
+  apply in_flat_map. exists u. split; [apply in_bools|].
+  apply in_flat_map. exists t. split; [apply (in_small 16); exact Ht|].
+  apply in_map_iff. exists m. split; [reflexivity|apply (in_small 4); exact Hm].
+Qed.
+Lemma all_regdel_spec r : r_mc r < 4 -> r_sme r < 4 -> r_rsv r < 8 -> In r all_regdel.
+Proof.
+  intros Hm Hs Hr. destruct r as [m s i v]. cbn in Hm, Hs, Hr. unfold all_regdel.
+  apply in_flat_map. exists v. split; [apply (in_small 8); exact Hr|].
+  apply in_flat_map. exists i. split; [apply in_bools|].
+  apply in_flat_map. exists s. split; [apply (in_small 4); exact Hs|].
+  apply in_map_iff. exists m. split; [reflexivity|apply (in_small 4); exact Hm].
+Qed.
+
+Lemma esm_encode_decode e : e_mode e < 4 -> e_type e < 16 ->
+  esm_of_byte (esm_to_byte e) = e /\ esm_to_byte e < 256 /\ esm_to_byte e = spec_esm_byte e.
+Proof.
+  intros Hm Ht. pose proof (all_esm_spec e Hm Ht) as Hin.
+  assert (H : forallb (fun e => beq_esm (esm_of_byte (esm_to_byte e)) e && (esm_to_byte e <? 256)
+                                && (esm_to_byte e =? spec_esm_byte e)) all_esm = true) by (vm_compute; reflexivity).
+  rewrite forallb_forall in H. specialize (H e Hin). rewrite !andb_true_iff in H. destruct H as [[H1 H2] H3].
+  apply beq_esm_eq in H1. apply N.ltb_lt in H2. apply N.eqb_eq in H3. auto.
+Qed.
+Lemma regdel_encode_decode r : r_mc r < 4 -> r_sme r < 4 -> r_rsv r < 8 ->
+  regdel_of_byte (regdel_to_byte r) = r /\ regdel_to_byte r < 256 /\ regdel_to_byte r = spec_regdel_byte r.
+Proof.
+  intros Hm Hs Hr. pose proof (all_regdel_spec r Hm Hs Hr) as Hin.
+  assert (H : forallb (fun r => beq_regdel (regdel_of_byte (regdel_to_byte r)) r && (regdel_to_byte r <? 256)
+                                && (regdel_to_byte r =? spec_regdel_byte r)) all_regdel = true) by (vm_compute; reflexivity).
+  rewrite forallb_forall in H. specialize (H r Hin). rewrite !andb_true_iff in H. destruct H as [[H1 H2] H3].
+  apply beq_regdel_eq in H1. apply N.ltb_lt in H2. apply N.eqb_eq in H3. auto.
+Qed.
+(* the octet domain and the field domain are in bijection: 256 values each, no repetition *)
+Lemma all_esm_is_decoded_octets : map esm_to_byte all_esm = all256 /\ map esm_of_byte all256 = all_esm.
+Proof. split; vm_compute; reflexivity. Qed.
+Lemma all_regdel_is_decoded_octets : map regdel_to_byte all_regdel = all256 /\ map regdel_of_byte all256 = all_regdel.
+Proof. split; vm_compute; reflexivity. Qed.
+
+(* ---------------------------------------------------------------------------
+   Receiver independence: decoding INTO a value that is already there. *)
+Lemma esm_write_any_receiver e0 c : esm_write e0 c = esm_of_byte c.
+Proof. reflexivity. Qed.
+Lemma regdel_write_any_receiver r0 c : regdel_write r0 c = regdel_of_byte c.
+Proof. reflexivity. Qed.
+Lemma esm_write_history e0 bs b : b < 256 -> esm_to_byte (fold_left esm_write (bs ++ [b]) e0) = b.
+Proof. intros Hb. rewrite fold_left_app. cbn [fold_left]. rewrite esm_write_any_receiver. apply esm_roundtrip, Hb. Qed.
+Lemma regdel_write_history r0 bs b : b < 256 -> regdel_to_byte (fold_left regdel_write (bs ++ [b]) r0) = b.
+Proof. intros Hb. rewrite fold_left_app. cbn [fold_left]. rewrite regdel_write_any_receiver. apply regdel_roundtrip, Hb. Qed.
+(* a WriteByte that ORs into its receiver is NOT receiver independent: 0xFF then 0x00 reads back 0xFF *)
+Lemma esm_write_or_refuted :
+  exists e0 c, c < 256 /\ esm_to_byte (esm_write_or e0 c) <> c /\ esm_write_or (esm_of_byte 0) c = esm_of_byte c.
+Proof. exists (esm_of_byte 255), 0. vm_compute. repeat split; congruence. Qed.
+Lemma ifver_unmarshal_any_receiver v0 b : b < 256 -> ifver_unmarshal v0 (ifver_to_json b) = (b, true).
+Proof. intros Hb. unfold ifver_unmarshal. rewrite ifver_roundtrip by exact Hb. reflexivity. Qed.
